@@ -25,7 +25,7 @@ def jobs(U):
     it = lambda a, b=None: a & b
     df = lambda a, b=None: a & ~b
     pr = lambda a, b=None: a | U.addvar(a, V)
-    cn = lambda a, b=None: U.popcount(a)
+    cn = lambda a, b=None: U.card(a)
     idn = lambda a, b=None: a
     jn = lambda a, b=None: U.join(a, b)
     J = []
@@ -51,7 +51,7 @@ def run_job(mod, U, job, syms, overflow_checks=True):
     title, fname, kind, spec = job
     A, B, V = syms
     specs = {'union': lambda a, b: a | b, 'intersection': lambda a, b: a & b, 'difference': lambda a, b: a & ~b,
-             'count': lambda a: U.popcount(a), 'local': spec if kind not in ('arena2',) else None,
+             'count': lambda a: U.card(a), 'local': spec if kind not in ('arena2',) else None,
              'local1': (lambda a: spec(a)), 'remap': lambda a: a}
     ex = ZddExec(mod, U, specs, overflow_checks=overflow_checks, loop_bound=4)
     arena, fields = _arena_obj(mod)
@@ -87,12 +87,12 @@ def run_job(mod, U, job, syms, overflow_checks=True):
         ex.contracts['ZddArena::union_refs'] = contract(un, (1, 2), measure=False)
         args = [ar, ZRef(A), V, box(Cache('local'))]; goal = spec(A)
     elif kind == 'arena_count':
-        ex.contracts[fname] = contract(lambda a: U.popcount(a), (1,), ret_count=True)
-        args = [ar, ZRef(A)]; goal = U.popcount(A)
+        ex.contracts[fname] = contract(lambda a: U.card(a), (1,), ret_count=True)
+        args = [ar, ZRef(A)]; goal = U.card(A)
     elif kind == 'arena_count_u':
-        ex.specs['local'] = lambda a: U.popcount(a)
-        ex.contracts[fname] = contract(lambda a: U.popcount(a), (1,), ret_count=True)
-        args = [ar, ZRef(A), box(Cache('local', count=True))]; goal = U.popcount(A)
+        ex.specs['local'] = lambda a: U.card(a)
+        ex.contracts[fname] = contract(lambda a: U.card(a), (1,), ret_count=True)
+        args = [ar, ZRef(A), box(Cache('local', count=True))]; goal = U.card(A)
     elif kind == 'free2':
         ex.specs['local'] = lambda a, b: spec(a, b)
         ex.contracts[fname] = contract(spec, (0, 1))
@@ -112,13 +112,14 @@ def run_job(mod, U, job, syms, overflow_checks=True):
         ex.contracts[fname] = contract(lambda a: a, (0,))
         args = [ZRef(A), zdd, table, box(Cache('local'))]; goal = A
     elif kind == 'zdd_count':
-        ex.specs['local'] = lambda a: U.popcount(a)
-        ex.contracts[fname] = contract(lambda a: U.popcount(a), (1,), ret_count=True)
-        args = [zdd, ZRef(A), box(Cache('local', count=True))]; goal = U.popcount(A)
+        ex.specs['local'] = lambda a: U.card(a)
+        ex.contracts[fname] = contract(lambda a: U.card(a), (1,), ret_count=True)
+        args = [zdd, ZRef(A), box(Cache('local', count=True))]; goal = U.card(A)
     else:
         raise ValueError(kind)
     st = State()
     if 'prod' in kind: st.path.assume(ULT(V, U.N))
+    if 'count' in kind: st.path.assume(U.card_facts(A))      # facts about |F| discharged by the separate cardinality-lemma queries
     t0 = time.time()
     f = ex.find_func(fname)
     if f is None or isinstance(f, list):
@@ -183,8 +184,7 @@ def run(ctx):
     import multiprocessing as mp
     from vlib import replay, models
     from vlib.driver import Finding
-    _N = 4 if ctx.tier == 'quick' else 5
-    if ctx.tier == 'quick' and ctx.seed % 2 == 1: _N = 5      # odd seeds use the larger universe in quick as well
+    _N = 5 if ctx.tier == 'quick' else 6       # the property's own bound is 5 variables; thorough goes one beyond (64-bit family vectors)
     _MOD, info = mirdump.load('zdd')
     ctx.engines.append('M (MIR symbolic execution -> Z3)')
     ctx.functions.append({'crate': info['crate'], 'source_hash': info['source_hash'], 'mir_functions': info['functions'], 'dump_s': info['dump_s']})
@@ -198,6 +198,17 @@ def run(ctx):
     J, _ = jobs(U)
     with ProcessPoolExecutor(max_workers=min(14, len(J)), mp_context=mp.get_context('fork')) as pool:
         res = list(pool.map(_worker, range(len(J))))
+    # cardinality lemma (|F| := popcount satisfies the facts the count obligations assume), split on the top variable
+    t0 = time.time()
+    lem = []
+    for name, q in U.card_lemma_queries():
+        s = z3.Solver(); s.set('timeout', 120000); s.add(q)
+        t1 = time.time(); rc = s.check(); ctx.queries += 1
+        lem.append({'name': name, 'status': 'proved' if rc == z3.unsat else ('unknown' if rc == z3.unknown else 'violated'), 'secs': time.time() - t1, 'kind': 'lemma'})
+    ctx.solver_s += time.time() - t0
+    ctx.add_obligations('cardinality lemma (model side, no repository code)', lem, cls='all families over %d variables' % _N)
+    if any(l['status'] == 'violated' for l in lem):
+        ctx.inconclusive.append('cardinality lemma of the model is violated: the model is wrong, not the repository')
     binp = None
     for job, r in zip(J, res):
         title = job[0]
